@@ -228,6 +228,143 @@ proof fn lemma_ladder_step(s: u32, i: u32)
     lemma_fundamental_div_mod_converse(s as int, 2 * pi, q2, b as int * pi + r);
 }
 
+
+// ---------------------------------------------------------------- lemmas: double-width shifts
+proof fn lemma_tv_zero(s: Seq<Limb>, a: nat, b: nat)
+    requires a <= b, tv(s, a, b) == 0
+    ensures forall|k: int| a <= k < b ==> s[k].0 == 0
+    decreases b - a
+{
+    if b > a {
+        let m = (b - 1) as nat;
+        lemma_tv_bound(s, a, m);
+        lemma_bp_succ(m);
+        let x = s[m as int].0 as int; let p = bp(m);
+        assert(x * p >= 0) by (nonlinear_arith) requires x >= 0, p > 0;
+        assert(x > 0 ==> x * p > 0) by (nonlinear_arith) requires p > 0;
+        lemma_tv_zero(s, a, m);
+    }
+}
+
+/// limb-wise OR of a value below 2^s and a multiple of 2^s is their sum
+proof fn lemma_uint_or_disjoint(a: Seq<Limb>, b: Seq<Limb>, o: Seq<Limb>, n: nat, s: nat)
+    requires s < 64 * n, val(a, n) < p2(s), val(b, n) % p2(s) == 0,
+        forall|k: int| 0 <= k < n ==> o[k].0 == a[k].0 | b[k].0
+    ensures val(o, n) == val(a, n) + val(b, n)
+{
+    let sn = s / 64; let rem = s % 64;
+    lemma_bp_pow2(sn); lemma_pow2_adds(64 * sn, rem); lemma_pow2_pos(rem); lemma_bp_succ(sn); lemma_pow2_64();
+    let pr = p2(rem); let ps = bp(sn); let ps1 = bp(sn + 1);
+    assert(p2(s) == ps * pr);
+    lemma_pow2_strictly_increases(rem, 64);
+    assert(pr * ps < ps1) by (nonlinear_arith) requires pr < B(), ps > 0, ps1 == B() * ps;
+    // a: nothing above limb sn, a[sn] < 2^rem
+    lemma_val_bound(a, n); lemma_val_bound(a, sn);
+    lemma_val_mod(a, sn + 1, n);
+    lemma_small_mod(val(a, n) as nat, ps1 as nat);
+    assert(tv(a, sn + 1, n) == 0);
+    lemma_tv_zero(a, sn + 1, n);
+    lemma_val_step(a, sn);
+    let asn = a[sn as int].0 as int;
+    assert(asn < pr) by (nonlinear_arith) requires val(a, sn) + asn * ps < pr * ps, val(a, sn) >= 0, ps > 0;
+    // b: nothing below limb sn, b[sn] multiple of 2^rem
+    let vb = val(b, n);
+    lemma_val_bound(b, n);
+    lemma_pow2_pos(s);
+    lemma_fundamental_div_mod(vb, p2(s));
+    let q = vb / p2(s);
+    assert(vb == (pr * q) * ps) by (nonlinear_arith) requires vb == (ps * pr) * q;
+    lemma_mod_multiples_basic(pr * q, ps);
+    lemma_val_mod(b, sn, n);
+    assert(val(b, sn) == 0);
+    lemma_val_zero_iff(b, sn);
+    lemma_val_mod(b, sn + 1, n);
+    lemma_val_step(b, sn);
+    lemma_bp_succ(sn + 1);
+    lemma_fundamental_div_mod(vb, ps1);
+    let t = vb / ps1; let bsn = b[sn as int].0 as int;
+    assert(pr * q == B() * t + bsn) by (nonlinear_arith) requires (pr * q) * ps == (B() * ps) * t + bsn * ps, ps > 0;
+    let pc = p2((64 - rem) as nat);
+    lemma_pow2_adds(rem, (64 - rem) as nat);
+    assert(bsn == (q - pc * t) * pr) by (nonlinear_arith) requires pr * q == B() * t + bsn, pr * pc == B();
+    lemma_mod_multiples_basic(q - pc * t, pr);
+    // the OR, limb by limb
+    lemma_or_add(b[sn as int].0, a[sn as int].0, rem as u32);
+    assert forall|k: int| 0 <= k < sn implies o[k] == a[k] by { let x = a[k].0; assert(x | 0 == x) by (bit_vector); }
+    assert forall|k: int| sn + 1 <= k < n implies o[k] == b[k] by { let x = b[k].0; assert(0 | x == x) by (bit_vector); }
+    lemma_val_ext(o, a, sn);
+    lemma_tv_ext(o, b, sn + 1, n);
+    lemma_val_step(o, sn);
+    let osn = o[sn as int].0 as int;
+    assert(osn * ps == asn * ps + bsn * ps) by (nonlinear_arith) requires osn == asn + bsn;
+}
+
+/// (x * w) mod w^2 == (x mod w) * w
+proof fn lemma_mod_shift_w(x: int, w: int)
+    requires w > 0
+    ensures (x * w) % (w * w) == (x % w) * w
+{
+    lemma_truncate_middle(x, w, w);
+    assert(w * x == x * w) by (nonlinear_arith);
+    assert(w * (x % w) == (x % w) * w) by (nonlinear_arith);
+}
+
+/// double-width left shift by 0 < s < bits (w = 2^bits)
+proof fn lemma_wide_shl_small(l: int, u: int, w: int, s: nat, bits: nat)
+    requires w == p2(bits), 0 < s < bits, 0 <= l < w, 0 <= u < w
+    ensures l / p2((bits - s) as nat) < p2(s), 0 <= l / p2((bits - s) as nat), ((u * p2(s)) % w) % p2(s) == 0,
+        l / p2((bits - s) as nat) + (u * p2(s)) % w < w,
+        (l * p2(s)) % w + (l / p2((bits - s) as nat) + (u * p2(s)) % w) * w == ((l + u * w) * p2(s)) % (w * w),
+{
+    let ps = p2(s); let pr = p2((bits - s) as nat);
+    lemma_pow2_pos(s); lemma_pow2_pos((bits - s) as nat); lemma_pow2_adds(s, (bits - s) as nat);
+    assert(ps * pr == w);
+    let nl = (l * ps) % w; let ul = l / pr; let uh = (u * ps) % w;
+    // l * ps / w == l / pr
+    lemma_div_multiples_vanish_quotient(ps, l, pr);
+    assert(ps * l == l * ps) by (nonlinear_arith);
+    lemma_fundamental_div_mod(l * ps, w);
+    assert(l * ps == w * ul + nl);
+    lemma_fundamental_div_mod(l, pr); lemma_mod_bound(l, pr);
+    assert(ul < ps) by (nonlinear_arith) requires l == pr * ul + l % pr, l % pr >= 0, l < ps * pr, pr > 0;
+    assert(ul >= 0) by (nonlinear_arith) requires l == pr * ul + l % pr, l % pr < pr, l >= 0, pr > 0;
+    lemma_fundamental_div_mod(u * ps, w); lemma_mod_bound(u * ps, w);
+    let q = (u * ps) / w;
+    let k = u - pr * q;
+    assert(uh == k * ps) by (nonlinear_arith) requires u * ps == (ps * pr) * q + uh;
+    lemma_mod_multiples_basic(k, ps);
+    assert(k < pr) by (nonlinear_arith) requires k * ps < ps * pr, ps > 0;
+    assert(uh <= w - ps) by (nonlinear_arith) requires uh == k * ps, k <= pr - 1, ps * pr == w, ps > 0;
+    lemma_mod_bound(l * ps, w);
+    let r = nl + (ul + uh) * w;
+    assert((l + u * w) * ps == (w * w) * q + r) by (nonlinear_arith) requires l * ps == w * ul + nl, u * ps == w * q + uh, r == nl + (ul + uh) * w;
+    assert(0 <= r < w * w) by (nonlinear_arith) requires r == nl + (ul + uh) * w, 0 <= nl < w, 0 <= ul + uh <= w - 1;
+    lemma_fundamental_div_mod_converse((l + u * w) * ps, w * w, q, r);
+}
+
+/// double-width right shift by 0 < s < bits (w = 2^bits)
+proof fn lemma_wide_shr_small(l: int, u: int, w: int, s: nat, bits: nat)
+    requires w == p2(bits), 0 < s < bits, 0 <= l < w, 0 <= u < w
+    ensures 0 <= l / p2(s) < p2((bits - s) as nat), ((u * p2((bits - s) as nat)) % w) % p2((bits - s) as nat) == 0,
+        l / p2(s) + (u * p2((bits - s) as nat)) % w + (u / p2(s)) * w == (l + u * w) / p2(s),
+{
+    let ps = p2(s); let pr = p2((bits - s) as nat);
+    lemma_pow2_pos(s); lemma_pow2_pos((bits - s) as nat); lemma_pow2_adds(s, (bits - s) as nat);
+    assert(ps * pr == w);
+    let ll = l / ps; let lh = (u * pr) % w; let nu = u / ps; let r = u % ps;
+    lemma_fundamental_div_mod(l, ps); lemma_mod_bound(l, ps);
+    assert(ll < pr) by (nonlinear_arith) requires l == ps * ll + l % ps, l % ps >= 0, l < ps * pr, ps > 0;
+    assert(ll >= 0) by (nonlinear_arith) requires l == ps * ll + l % ps, l % ps < ps, l >= 0, ps > 0;
+    lemma_fundamental_div_mod(u, ps); lemma_mod_bound(u, ps);
+    assert(u * pr == w * nu + r * pr) by (nonlinear_arith) requires u == ps * nu + r, ps * pr == w;
+    assert(0 <= r * pr < w) by (nonlinear_arith) requires 0 <= r <= ps - 1, ps * pr == w, pr > 0;
+    lemma_fundamental_div_mod_converse(u * pr, w, nu, r * pr);
+    assert(lh == r * pr);
+    lemma_mod_multiples_basic(r, pr);
+    assert(l + u * w == l + (nu * w + r * pr) * ps) by (nonlinear_arith) requires u == ps * nu + r, ps * pr == w;
+    lemma_hoist_over_denominator(l, nu * w + r * pr, ps as nat);
+}
+
 //@@ subst \b(Self|Uint)::(ZERO|ONE|MAX|BITS|LOG2_BITS)\b(?!\() => \1::\2()
 //@@ subst \bUint::<(\w+)>::(ZERO|ONE|MAX|BITS)\b(?!\() => Uint::<\1>::\2()
 //@@ fn src/uint/bits.rs | impl<const LIMBS: usize> Uint<LIMBS> | bits | stub | props C05 C11
@@ -955,6 +1092,145 @@ pub const fn shr1_with_carry(&self) -> (ret__: (Self, ConstChoice))
     }
 //@-
         (ret, ConstChoice::from_word_lsb(carry.0 >> Limb::HI_BIT))
+    }
+}
+//@@ end
+
+//@@ fn src/uint/bit_or.rs | impl<const LIMBS: usize> Uint<LIMBS> | bitor | body | props C05 C11
+impl<const LIMBS: usize> Uint<LIMBS> {
+pub const fn bitor(&self, rhs: &Self) -> (ret__: Self)
+//@+
+    ensures forall|k: int| 0 <= k < LIMBS ==> ret__.limbs@[k].0 == self.limbs@[k].0 | rhs.limbs@[k].0
+//@-
+{
+        let mut limbs = [Limb::ZERO; LIMBS];
+        let mut i = 0;
+        while i < LIMBS
+//@+
+    invariant i <= LIMBS, forall|k: int| 0 <= k < i ==> limbs@[k].0 == self.limbs@[k].0 | rhs.limbs@[k].0,
+    decreases LIMBS - i,
+//@-
+{
+            limbs[i] = self.limbs[i].bitor(rhs.limbs[i]);
+            i += 1;
+        }
+        Self { limbs }
+    }
+}
+//@@ end
+//@@ fn src/uint/shl.rs | impl<const LIMBS: usize> Uint<LIMBS> | overflowing_shl_vartime_wide | body | props C05 C11 C15
+impl<const LIMBS: usize> Uint<LIMBS> {
+pub const fn overflowing_shl_vartime_wide(
+        lower_upper: (Self, Self),
+        shift: u32,
+    ) -> (ret__: ConstCtOption<(Self, Self)>)
+//@+
+    requires 1 <= LIMBS < 0x200_0000, shift != 0
+    ensures ret__.is_some.wf(), ret__.is_some.t() == ((shift as int) < 128 * LIMBS),
+        ret__.is_some.t() ==> ret__.value.0.v() + ret__.value.1.v() * bp(LIMBS as nat) == ((lower_upper.0.v() + lower_upper.1.v() * bp(LIMBS as nat)) * p2(shift as nat)) % (bp(LIMBS as nat) * bp(LIMBS as nat)),
+        !ret__.is_some.t() ==> ret__.value.0.v() == 0 && ret__.value.1.v() == 0
+//@-
+{
+        let (lower, upper) = lower_upper;
+//@+
+    let ghost w = bp(LIMBS as nat); let ghost bits = (64 * LIMBS) as nat;
+    proof { lemma_bp_pow2(LIMBS as nat); lemma_bp_succ(LIMBS as nat); lemma_val_bound(lower.limbs@, LIMBS as nat); lemma_val_bound(upper.limbs@, LIMBS as nat); }
+//@-
+        if shift >= 2 * Self::BITS() {
+            ConstCtOption::none((Self::ZERO(), Self::ZERO()))
+        } else if shift >= Self::BITS() {
+            let upper = lower
+                .overflowing_shl_vartime(shift - Self::BITS())
+                .expect("shift within range");
+//@+
+    proof {
+        let s2 = (shift - 64 * LIMBS) as nat; let l = lower.v(); let u = lower_upper.1.v();
+        lemma_pow2_adds(bits, s2);
+        assert((l + u * w) * p2(shift as nat) == (l * p2(s2)) * w + (w * w) * (u * p2(s2))) by (nonlinear_arith) requires p2(shift as nat) == w * p2(s2);
+        lemma_mod_multiples_vanish(u * p2(s2), (l * p2(s2)) * w, w * w);
+        lemma_mod_shift_w(l * p2(s2), w);
+    }
+//@-
+            ConstCtOption::some((Self::ZERO(), upper))
+        } else {
+            let new_lower = lower
+                .overflowing_shl_vartime(shift)
+                .expect("shift within range");
+            let upper_lo = lower
+                .overflowing_shr_vartime(Self::BITS() - shift)
+                .expect("shift within range");
+            let upper_hi = upper
+                .overflowing_shl_vartime(shift)
+                .expect("shift within range");
+//@+
+    proof {
+        lemma_wide_shl_small(lower.v(), upper.v(), w, shift as nat, bits);
+        assert forall|o: Seq<Limb>| (forall|k: int| 0 <= k < LIMBS ==> o[k].0 == upper_lo.limbs@[k].0 | upper_hi.limbs@[k].0) implies #[trigger] val(o, LIMBS as nat) == upper_lo.v() + upper_hi.v() by {
+            lemma_uint_or_disjoint(upper_lo.limbs@, upper_hi.limbs@, o, LIMBS as nat, shift as nat);
+        }
+    }
+//@-
+            ConstCtOption::some((new_lower, upper_lo.bitor(&upper_hi)))
+        }
+    }
+}
+//@@ end
+//@@ fn src/uint/shr.rs | impl<const LIMBS: usize> Uint<LIMBS> | overflowing_shr_vartime_wide | body | props C05 C11 C15
+impl<const LIMBS: usize> Uint<LIMBS> {
+pub const fn overflowing_shr_vartime_wide(
+        lower_upper: (Self, Self),
+        shift: u32,
+    ) -> (ret__: ConstCtOption<(Self, Self)>)
+//@+
+    requires 1 <= LIMBS < 0x200_0000, shift != 0
+    ensures ret__.is_some.wf(), ret__.is_some.t() == ((shift as int) < 128 * LIMBS),
+        ret__.is_some.t() ==> ret__.value.0.v() + ret__.value.1.v() * bp(LIMBS as nat) == (lower_upper.0.v() + lower_upper.1.v() * bp(LIMBS as nat)) / p2(shift as nat),
+        !ret__.is_some.t() ==> ret__.value.0.v() == 0 && ret__.value.1.v() == 0
+//@-
+{
+        let (lower, upper) = lower_upper;
+//@+
+    let ghost w = bp(LIMBS as nat); let ghost bits = (64 * LIMBS) as nat;
+    proof { lemma_bp_pow2(LIMBS as nat); lemma_bp_succ(LIMBS as nat); lemma_val_bound(lower.limbs@, LIMBS as nat); lemma_val_bound(upper.limbs@, LIMBS as nat); }
+//@-
+        if shift >= 2 * Self::BITS() {
+            ConstCtOption::none((Self::ZERO(), Self::ZERO()))
+        } else if shift >= Self::BITS() {
+            let lower = upper
+                .overflowing_shr_vartime(shift - Self::BITS())
+                .expect("shift within range");
+//@+
+    proof {
+        let s2 = (shift - 64 * LIMBS) as nat; let l = lower_upper.0.v(); let u = upper.v();
+        lemma_pow2_adds(bits, s2); lemma_pow2_pos(s2);
+        assert(l + u * w >= 0) by (nonlinear_arith) requires l >= 0, u >= 0, w > 0;
+        assert(w * u == u * w) by (nonlinear_arith);
+        lemma_fundamental_div_mod_converse(l + u * w, w, u, l);
+        lemma_div_denominator(l + u * w, w, p2(s2));
+        assert(0 * w == 0);
+    }
+//@-
+            ConstCtOption::some((lower, Self::ZERO()))
+        } else {
+            let new_upper = upper
+                .overflowing_shr_vartime(shift)
+                .expect("shift within range");
+            let lower_hi = upper
+                .overflowing_shl_vartime(Self::BITS() - shift)
+                .expect("shift within range");
+            let lower_lo = lower
+                .overflowing_shr_vartime(shift)
+                .expect("shift within range");
+//@+
+    proof {
+        lemma_wide_shr_small(lower.v(), upper.v(), w, shift as nat, bits);
+        assert forall|o: Seq<Limb>| (forall|k: int| 0 <= k < LIMBS ==> o[k].0 == lower_lo.limbs@[k].0 | lower_hi.limbs@[k].0) implies #[trigger] val(o, LIMBS as nat) == lower_lo.v() + lower_hi.v() by {
+            lemma_uint_or_disjoint(lower_lo.limbs@, lower_hi.limbs@, o, LIMBS as nat, (64 * LIMBS - shift) as nat);
+        }
+    }
+//@-
+            ConstCtOption::some((lower_lo.bitor(&lower_hi), new_upper))
+        }
     }
 }
 //@@ end
